@@ -18,6 +18,7 @@ INVARIANT AutoOnV1
 INVARIANT AutoOnMixed
 INVARIANT AutoOnV2
 INVARIANT AtNeutral
+INVARIANT ListIsConjunction
 INVARIANT HistoryIndependent
 INVARIANT Witness
 INVARIANT Emit
